@@ -77,6 +77,14 @@ bool judge(pbt::Case &c, const std::string &side, const Stream &s, const Outcome
         c.fail(P + "invalid-utf8-delivered", "a text message that is not UTF-8 was delivered: " + showMsg(m) + " [" + seg + "]");
         return false;
       }
+  // a message one byte above the configured maximum must never reach the application
+  if (s.hasOversized)
+    for (auto &m : o.msgs)
+      if (m.payload == s.oversizedPayload)
+      {
+        c.fail(P + "oversized-message-delivered", pbt::Fmt() << "a message of " << m.payload.size() << " bytes, one more than the configured maximum, was delivered [" << seg << "]");
+        return false;
+      }
   if (o.msgs != s.expect)
   {
     // classify the shape of the difference for a specific signature
@@ -86,9 +94,9 @@ bool judge(pbt::Case &c, const std::string &side, const Stream &s, const Outcome
     c.fail(P + shape, "delivered " + showMsgs(o.msgs) + " expected " + showMsgs(s.expect) + " [" + seg + "]");
     return false;
   }
-  if (s.hasInvalidText)
+  if (s.hasInvalidText || s.hasOversized)
   {
-    // the endpoint fails the connection itself (1007); whether it still reports the peer's
+    // the endpoint fails the connection itself (1007/1009); whether it still reports the peer's
     // later close frame to the application is not part of the property
   }
   else if (s.hasClose)
@@ -395,6 +403,66 @@ PBT_PROPERTY(frame_roundtrip)
 PBT_PROPERTY(server_segments)
 {
   segmentationProperty(src, c, "server", true, [](const std::string &w, const std::vector<std::size_t> &cuts) { return runServer(w, cuts); });
+}
+
+// ------------------------------------------------------------------------ limit_segments
+// A small configured maximum N (server setMaxFrameSize / client Options::maxMessageSize) and a
+// message of exactly N-1, N or N+1 payload bytes, as one frame or reassembled from fragments:
+// N-1 and N are delivered, N+1 is refused - for EVERY segmentation (the whole-frame path and the
+// incomplete-frame path must agree on where the limit is).
+namespace
+{
+bool clientReachable()
+{
+#ifdef JOEGEN_IORA_VERIF_WS_CLIENT_PROBE
+  return true;
+#else
+  return false;
+#endif
+}
+
+bool limitCase(pbt::Src &src, pbt::Case &c, bool server, std::size_t N, int delta, const Stream &s)
+{
+  const std::string side = server ? "server" : "client";
+  auto run = [&](const std::vector<std::size_t> &cuts)
+  {
+#ifdef JOEGEN_IORA_VERIF_WS_CLIENT_PROBE
+    if (!server) return runClient(s.wire, cuts, false, N);
+#endif
+    return runServer(s.wire, cuts, N);
+  };
+  const std::string tag = pbt::Fmt() << "maximum " << N << ", message of " << N + static_cast<std::size_t>(delta + 1) - 1 << " bytes; ";
+  if (!judge(c, side, s, run({}), tag + "whole stream in one read")) return false;
+  for (std::size_t cut : c18::singleCuts(src, s))
+    if (!judge(c, side, s, run({cut}), tag + "single cut at byte " + std::to_string(cut))) return false;
+  if (s.wire.size() <= 3000)
+  {
+    std::vector<std::size_t> every;
+    for (std::size_t i = 1; i < s.wire.size(); ++i) every.push_back(i);
+    if (!judge(c, side, s, run(every), tag + "one byte per read")) return false;
+  }
+  for (int k = 0; k < 3; ++k)
+  {
+    auto mc = c18::multiCut(src, s.wire.size(), 12);
+    if (!judge(c, side, s, run(mc), tag + showCuts(mc))) return false;
+  }
+  return true;
+}
+} // namespace
+
+PBT_PROPERTY(limit_segments)
+{
+  const bool server = !clientReachable() || src.coin();
+  std::size_t N;
+  if (src.coin(3, 4)) N = src.oneOf<std::size_t>({125, 126, 127, 1000});
+  else N = src.oneOf<std::size_t>({65535, 65536, 70000});
+  const int delta = static_cast<int>(src.range(-1, 1));
+  Stream s = c18::genBoundaryStream(src, server, N, delta);
+  c.describe(pbt::Fmt() << (server ? "server maxFrameSize=" : "client maxMessageSize=") << N << " <- " << s.describe());
+  c.label(std::string(server ? "server: " : "client: ") + (delta < 0 ? "message of N-1 bytes" : delta == 0 ? "message of exactly N bytes" : "message of N+1 bytes (refused)"));
+  if (s.fragmentedMsgs) c.label("boundary message fragmented or neighbours fragmented");
+  c.nontrivial(pbt::hash64(s.wire) ^ N);
+  limitCase(src, c, server, N, delta, s);
 }
 
 // ------------------------------------------------------------------------ client_segments
@@ -906,6 +974,30 @@ LoopResult driveLoop(const Stream &s, const LoopPlan &plan, c18net::RawConn &con
   return r;
 }
 
+/// in a sixth of the wire cases: a small configured maximum N and a message of N-1 / N / N+1 bytes
+struct Boundary
+{
+  std::size_t N = 0; // 0: ordinary stream, library default limit
+  int delta = 0;
+};
+Boundary drawBoundary(pbt::Src &src)
+{
+  Boundary b;
+  if (!src.coin(1, 6)) return b;
+  b.N = src.coin(1, 8) ? std::size_t(65536) : src.oneOf<std::size_t>({125, 126, 127, 1000});
+  b.delta = static_cast<int>(src.range(-1, 1));
+  return b;
+}
+std::string describeBoundary(const Boundary &b)
+{
+  if (!b.N) return std::string();
+  return pbt::Fmt() << " | configured maximum " << b.N << ", boundary message of N" << (b.delta < 0 ? "-1" : b.delta == 0 ? "" : "+1") << " bytes";
+}
+void labelBoundary(pbt::Case &c, const Boundary &b)
+{
+  if (b.N) c.label(b.delta < 0 ? "configured maximum: message of N-1 bytes" : b.delta == 0 ? "configured maximum: message of exactly N bytes" : "configured maximum: message of N+1 bytes (refused)");
+}
+
 /// how much of the stream travels in the same write as the opening handshake
 struct Coalesce
 {
@@ -1155,10 +1247,18 @@ PBT_PROPERTY(server_wire)
   c18::GenOpts go;
   go.masked = true;
   go.allowBig = src.coin(1, 10);
-  Stream s = c18::genStream(src, go);
-  LoopPlan plan = drawPlan(src, s, true);
-  Coalesce co = drawCoalesce(src, s, true);
-  c.describe(pbt::Fmt() << "server <- " << s.describe() << " | " << describePlan(plan)
+  Boundary bd = drawBoundary(src);
+  struct MaxGuard
+  {
+    LoopServer *srv;
+    ~MaxGuard() { srv->setMaxFrameSize(16u << 20); }
+  } maxGuard{srv};
+  if (bd.N) srv->setMaxFrameSize(bd.N);
+  Stream s = bd.N ? c18::genBoundaryStream(src, true, bd.N, bd.delta) : c18::genStream(src, go);
+  LoopPlan plan = drawPlan(src, s, !bd.N);
+  Coalesce co = bd.N ? Coalesce{} : drawCoalesce(src, s, true);
+  labelBoundary(c, bd);
+  c.describe(pbt::Fmt() << "server <- " << s.describe() << describeBoundary(bd) << " | " << describePlan(plan)
                         << (co.prefixLen ? " | the first " + std::to_string(co.prefixLen) + " bytes in the same write as the upgrade request" : std::string()));
   labelStream(c, s);
 
@@ -1250,6 +1350,7 @@ struct ClientUnderTest
   std::shared_ptr<SharedLog> log = std::make_shared<SharedLog>();
   c18net::RawConn conn;
   bool timed = false; // the failure is a bounded wait (connect() gave up), not a wrong answer
+  std::size_t maxMessage = 0; // Options::maxMessageSize for the next connect() (0: library default)
   // The peer's close frame travelled in the same write as the 101 response and was processed
   // before connect() looked at the state again: connect() reports "not connected" and tears down.
   // Legitimate; the exchange is then over and only the callbacks can be judged.
@@ -1325,7 +1426,9 @@ struct ClientUnderTest
     bool connected = false;
     try
     {
-      connected = cl->connect("127.0.0.1", static_cast<std::uint16_t>(lst.port), "/ws", ws::WebSocketClient::Options(), std::chrono::milliseconds(30000));
+      ws::WebSocketClient::Options opt;
+      if (maxMessage) opt.maxMessageSize = maxMessage;
+      connected = cl->connect("127.0.0.1", static_cast<std::uint16_t>(lst.port), "/ws", opt, std::chrono::milliseconds(30000));
     }
     catch (const std::exception &e)
     {
@@ -1499,14 +1602,17 @@ PBT_PROPERTY(client_wire)
   go.masked = false;
   go.allowBig = src.coin(1, 10);
   go.allowInvalidUtf8 = !pbt::isKnown("C18/client/invalid-utf8-delivered");
-  Stream s = c18::genStream(src, go);
-  LoopPlan plan = drawPlan(src, s, true);
+  Boundary bd = drawBoundary(src);
+  Stream s = bd.N ? c18::genBoundaryStream(src, false, bd.N, bd.delta) : c18::genStream(src, go);
+  LoopPlan plan = drawPlan(src, s, !bd.N);
   excludeDataAfterClose(c, plan);
-  Coalesce co = drawCoalesce(src, s, false);
-  c.describe("client <- " + s.describe() + " | " + describePlan(plan) + describeCoalesce(co));
+  Coalesce co = bd.N ? Coalesce{} : drawCoalesce(src, s, false);
+  labelBoundary(c, bd);
+  c.describe("client <- " + s.describe() + describeBoundary(bd) + " | " + describePlan(plan) + describeCoalesce(co));
   labelStream(c, s);
 
   ClientUnderTest cut;
+  cut.maxMessage = bd.N;
   std::string why;
   bool harnessSide = false;
   if (!cut.start(why, harnessSide, s.wire.substr(0, co.prefixLen), co.cutPermille, closeInPrefix(s, co)))
@@ -2032,14 +2138,6 @@ struct HostileEndpoint
   }
 };
 
-bool clientReachable()
-{
-#ifdef JOEGEN_IORA_VERIF_WS_CLIENT_PROBE
-  return true;
-#else
-  return false;
-#endif
-}
 
 std::string payloadBytes(pbt::Src &src, std::size_t n)
 {
@@ -2997,6 +3095,58 @@ PBT_REGRESSION(server_frames_with_upgrade_request)
   judged.closeCode = 1000;
   if (!judge(c, "server", judged, o, "upgrade request + all frames in one write")) return;
   judgeWire(c, "server", conn.rx, conn.eof, s.pings, {}, {}, "", false);
+}
+
+// exactly-at-the-limit frames, single and reassembled, every single cut, both endpoints
+PBT_REGRESSION(max_size_exact_boundary)
+{
+  FixedSrc src;
+  for (int side = 0; side < 2; ++side)
+  {
+    const bool server = side == 0;
+    if (!server && !clientReachable()) continue;
+    for (std::size_t N : {std::size_t(126), std::size_t(1000)})
+      for (int delta = -1; delta <= 1; ++delta)
+        for (int fragmented = 0; fragmented < 2; ++fragmented)
+        {
+          const std::size_t L = N + static_cast<std::size_t>(delta + 1) - 1;
+          Stream s;
+          auto add = [&](std::uint8_t op, bool fin, const std::string &pl)
+          {
+            refws::Frame f;
+            f.opcode = op;
+            f.fin = fin;
+            f.payload = pl;
+            f.masked = server;
+            if (server) f.key[0] = 0x21, f.key[1] = 0x43, f.key[2] = 0x65, f.key[3] = 0x87;
+            s.add(f);
+          };
+          std::string big(L, 'm');
+          add(refws::OpText, true, "pre");
+          s.expect.push_back(Msg{true, "pre"});
+          if (fragmented)
+          {
+            add(refws::OpBinary, false, big.substr(0, L / 2));
+            add(refws::OpPing, true, "hb");
+            add(refws::OpCont, true, big.substr(L / 2));
+          }
+          else
+            add(refws::OpBinary, true, big);
+          if (delta <= 0)
+          {
+            s.expect.push_back(Msg{false, big});
+            add(refws::OpText, true, "post");
+            s.expect.push_back(Msg{true, "post"});
+          }
+          else
+          {
+            s.hasOversized = true;
+            s.oversizedPayload = big;
+          }
+          c.describe(pbt::Fmt() << (server ? "server maxFrameSize=" : "client maxMessageSize=") << N << " <- " << s.describe());
+          if (!limitCase(src, c, server, N, delta, s)) return;
+        }
+  }
 }
 
 PBT_REGRESSION(server_ping_length_code_126)
